@@ -102,3 +102,24 @@ Theorem c10_nonce_aad_eq_spec : forall (iv : list N) (s : N) (ctype maj min : N)
   tls13_aad_model n = aad13 n.
 Proof. exact nonce_aad_model_eq. Qed.
 Print Assumptions c10_nonce_aad_eq_spec.
+
+(* tls13KeySchedule.c tls13GenerateEarlySecret's keep-or-regenerate logic (generateEarlySecretDone / tls13DidEncodePsk /
+   tls13UsingPsk) through the calls a client and a server make: the Early Secret that finally salts the Handshake Secret
+   comes from the PSK the server SELECTED - from the all-zero PSK when the client offered one and the server declined -
+   and the handshake secrets are the RFC 8446 7.1 values for that input:
+   Handshake Secret = HKDF-Extract(Derive-Secret(Early(selected PSK or 0), "derived", ""), (EC)DHE or 0) *)
+Theorem c10_tls13_psk_selection :
+  (forall sha3 is_server (offered : option (list N)) (selected : bool),
+     let sel := if selected then offered else None in
+     exists st, side_early_secret_model is_server sha3 offered selected = Ok st /\
+                es_from st = sel /\ es_value st = early_secret_of (halg_of sha3) sel) /\
+  (forall sha3 is_server (offered : option (list N)) (selected : bool) isres ecdhe th_ch th_sh th_sfin th_cfin,
+     let h := halg_of sha3 in
+     length th_ch = TlsSpec.hlen h -> length th_sh = TlsSpec.hlen h -> length th_sfin = TlsSpec.hlen h -> length th_cfin = TlsSpec.hlen h ->
+     let S := schedule13 h (if selected then offered else None) isres ecdhe th_ch th_sh th_sfin th_cfin in
+     side_hs_secrets_model sha3 is_server offered selected ecdhe th_sh =
+       Ok {| m_handshake := e_handshake S; m_c_hs := e_c_hs_traffic S; m_s_hs := e_s_hs_traffic S |} /\
+     e_handshake S = HKDF_Extract h (handshake_salt h (if selected then offered else None))
+                                  (match ecdhe with Some e => e | None => zeros (TlsSpec.hlen h) end)).
+Proof. exact (conj early_secret_selection_eq side_hs_secrets_eq). Qed.
+Print Assumptions c10_tls13_psk_selection.
